@@ -7,7 +7,9 @@ from wire import to_wire, from_wire
 KEYS = ["a", "b", "c", "d", "e"]
 SCAL = [0, 1, 2, 7, -3, True, False, "x", "y", "z", "", "1", "true", 0.5, 1.5, 2.25, "a b", 1.0, 2.0, -3.0,
         # beyond 32 bits: the YAML reader hands these over as another Go type than the JSON and TOML readers
-        2 ** 31, 2 ** 32, -2 ** 31 - 1, 4294967296000, 2 ** 53 + 1, 2 ** 62]
+        2 ** 31, 2 ** 32, -2 ** 31 - 1, 4294967296000, 2 ** 53 + 1, 2 ** 62,
+        # neighbours beyond 2^53: equal as float64, different as integers
+        2 ** 53, 2 ** 53 + 2, 2 ** 63 - 1, 2 ** 63 - 2, -2 ** 63, -2 ** 63 + 1]
 FMTS = ["yaml", "json", "toml"]
 
 
@@ -18,6 +20,11 @@ def ptree(rng, depth=3, wide=4):
         # list entries with nested containers (tags / labels): partial matches through nested values
         return [{"name": rng.choice(["a", "b"]), "tags": rng.sample(["x", "y", "z"], rng.randint(1, 3)), "meta": {"k": rng.choice(SCAL), "j": 1}}
                 for _ in range(rng.randint(1, 3))]
+    if depth >= 1 and r < 0.04:
+        # a long list of scalars from a small pool (repeated values, more than 16 entries: size thresholds of
+        # "fast paths" over lists sit at powers of two)
+        pool = rng.sample(["--v=1", "--v=2", "x", "y", 1, 2, 3, 1.5, True, "1", "2"], rng.randint(3, 6))
+        return [rng.choice(pool) for _ in range(rng.choice([9, 17, 18, 20, 24, 33, 40]))]
     if depth <= 0 or r < 0.35:
         return rng.choice(SCAL)
     if r < 0.7:
@@ -66,6 +73,10 @@ def edit(rng, v, depth=3):
         return out
     if r < 0.4:
         return rng.choice([{"k": rng.choice(SCAL)}, [rng.choice(SCAL)], {}])
+    if r < 0.6 and isinstance(v, int) and not isinstance(v, bool) and -2 ** 63 < v < 2 ** 63 - 1:
+        return v + rng.choice([1, -1])                 # the nearest other integer (beyond 2^53: the same float64)
+    if r < 0.65 and isinstance(v, str):
+        return v + rng.choice([" ", "x", "0"])
     return rng.choice(SCAL)
 
 
